@@ -27,7 +27,8 @@ evaluation is *defined* (the model returns `ok`, no UB) **and** denotes the exac
 * `to_scalar_exact` — the conversion expression `static_cast<S>(numerator) / static_cast<S>(denominator)`
   over an exact scalar is the value.  The IEEE rounding of that expression (`Fraction.toFloat`) is executable
   and tied to the code by the correspondence check only — it is not the subject of a theorem here
-  (no `CFloat` theory of rounding yet); likewise `abs` is modelled and tied, without a theorem.
+  (no `CFloat` theory of rounding yet);
+* `abs_components` — `abs` returns `|numerator| / |denominator|` (not part of the property text; abs.h is anchored).
 
 `std::gcd` enters through the libstdc++ transcription `Fraction.gcd` (binary gcd itself taken as `Nat.gcd`);
 within `ReduceGuard` (its precondition) it is `Int.gcd`.
@@ -164,6 +165,18 @@ theorem hash_eq_of_compare_equal (w : Nat) (hashN hashD : Int → Nat) (a b : Fr
   rw [cmp_correct .eq a b ga.dwf gb.dwf ga.dnz gb.dnz g] at heq
   simpa [cmpRat] using heq
 
+/-! ## abs -/
+
+/-- `abs(f)` is `|numerator| / |denominator|` in the component types of `f` (signed components whose
+negations are representable) -/
+theorem abs_components (a : Frac) (bn : 1 ≤ a.nt.bits) (bd : 1 ≤ a.dt.bits) (sn : a.nt.signed = true)
+    (sd : a.dt.signed = true) (wn : a.nt.InRange a.n) (wd : a.dt.InRange a.d)
+    (nn : a.nt.InRange (-a.n)) (nd : a.dt.InRange (-a.d)) :
+    Fraction.abs a = .ok ⟨a.nt, a.dt, (a.n.natAbs : Int), (a.d.natAbs : Int)⟩ := by
+  unfold Fraction.abs
+  rw [absC_exact a.num bn sn wn nn, absC_exact a.den bd sd wd nd]
+  rfl
+
 /-! ## conversion to floating point -/
 
 /-- `static_cast<S>(numerator) / static_cast<S>(denominator)` over an exact scalar is the value -/
@@ -181,6 +194,8 @@ example : DivGuard (i16, 100) (i16, -3) (i16, -7) (i16, 9) := by decide
 example : SubGuard (i64, 3) (i64, 4) (i32, 1) (i32, -4) := by decide
 example : NegFits (i8, -128) := by decide
 example : ¬ NegFits (i32, -2147483648) := by decide
+example : Fraction.abs ⟨i8, i8, -127, -3⟩ = .ok ⟨i8, i8, 127, 3⟩ := by decide
+example : Fraction.abs ⟨i8, i8, -128, 3⟩ = .ok ⟨i8, i8, -128, 3⟩ := by decide
 -- the comparison guard with denominators of different signs; the repaired operator's answer
 example : CmpGuard (i8, -128) (i8, -128) (i8, -128) (i8, 5) := by decide
 example : cmp .lt ⟨i8, i8, -128, -128⟩ ⟨i8, i8, -128, 5⟩ = .ok false := by decide
